@@ -183,4 +183,19 @@ Proof.
     eapply TreeInv_same_tree; [eapply set_ref_target_chars; eauto | exact I].
 Qed.
 
+Theorem RealInv_histories l : forall w w', RefChars -> RealInv w ->
+  Inv.clean_rep_ops T tab_el tab_en check_fn LATEST root_attrs l w = true ->
+  Inv.run_ops T tab_el tab_en check_fn LATEST root_attrs l w = Val w' -> RealInv w'.
+Proof.
+  induction l as [|o l IH]; intros w w' RC I Hc H; cbn [Inv.run_ops Inv.clean_rep_ops] in *.
+  - injection H as <-. auto.
+  - apply andb_true_iff in Hc as (Hk & Hc). apply negb_true_iff in Hk.
+    destruct (run o w) as [[r w1]|s|] eqn:E; try discriminate. eapply IH; [exact RC | | exact Hc | exact H].
+    eapply RealInv_step; eauto.
+Qed.
+
+Theorem types_kept o w r w' i n : Core w -> CharsLeaf T w -> run o w = Val (r, w') -> w_nodes w i = Some n ->
+  exists n', w_nodes w' i = Some n' /\ n_type n' = n_type n.
+Proof. intros C CL H Hn. eapply type_frame; [eapply cframe_step; eauto | exact Hn]. Qed.
+
 End Real.
